@@ -250,6 +250,11 @@ func (ap *accountPool) rebuild(detailed *nom.DetailedMomentum) error {
 		log.Debug("staring applying blocks", "num-uncommitted", len(uncommitted))
 		manager := db.NewMemDBManager(ap.stable.GetStableAccountDB(address))
 		for _, block := range uncommitted {
+			// the descendant blocks of a contract receive are re-applied together with it, as the one transaction they
+			// were added as
+			if block.BlockType == nom.BlockTypeContractSend {
+				continue
+			}
 			patch := oldManager.GetPatch(block.Identifier())
 			err := manager.Add(&nom.AccountBlockTransaction{
 				Block:   block,
